@@ -92,7 +92,12 @@ gauge_case = st.fixed_dictionaries(dict(
     model=wbsys.model_params_st(max_wann=3, max_npairs=4, rmax=1, keys=("Ham", "AA", "BB", "CC")),
     # 'kramers': time-reversal symmetric spinful model (construction of props/c08_parities.py) evaluated at a
     # time-reversal invariant momentum: genuine Kramers doublets whose two partners are NOT copies of each other
-    kind=st.sampled_from(["double_spin", "kramers", "kramers", "block2"]),
+    # 'block2_spin': two copies, then double_spin(): every band exactly four times;  'near': two copies whose energies
+    # differ by delta in (2e-4, 8e-4) eV - above the documented degeneracy threshold 1e-4 of the calculators AND of the
+    # random gauge, so nothing may be rotated and nothing may change
+    kind=st.sampled_from(["double_spin", "kramers", "kramers", "block2", "block2_spin", "near"]),
+    delta=st.sampled_from([2e-4, 3e-4, 5e-4, 8e-4]),
+    kram=st.booleans(),       # calculators built with the documented option degen_Kramers=True (bands grouped in pairs)
     k=wbsys.kpoint_st(),
     trim=st.lists(st.sampled_from([0.0, 0.5]), min_size=3, max_size=3),
     lat=wbsys.lattice_st(kinds=["triclinic", "generic"]),
@@ -111,7 +116,7 @@ def degenerate_system(case):
                           cgen=case["cgen"]), True)
         return wbsys.to_system(m, spinor=True), m
     model = wbsys.make_model(case["model"])
-    if case["kind"] == "block2":
+    if case["kind"] in ("block2", "block2_spin", "near"):
         # two identical decoupled copies of the model (co-centred): every band exactly twice, no spin structure
         n = model.nw
         m2 = wbsys.Model(model.lattice, np.vstack([model.wcc_red, model.wcc_red]), model.iRvec, {})
@@ -120,7 +125,13 @@ def degenerate_system(case):
             Y[:, :n, :n] = X
             Y[:, n:, n:] = X
             m2.mats[key] = Y
-        return wbsys.to_system(m2), model
+        if case["kind"] == "near":
+            i0 = [tuple(int(x) for x in R) for R in model.iRvec].index((0, 0, 0))
+            m2.mats["Ham"][i0, n:, n:] += case["delta"] * np.eye(n)
+        s2 = wbsys.to_system(m2)
+        if case["kind"] == "block2_spin":
+            s2.double_spin()
+        return s2, model
     s = wbsys.to_system(model)
     s.double_spin()
     return s, model
@@ -149,15 +160,17 @@ def check_gauge(case):
     cls = get_data_k_class_from_system(system)
     Ef = np.array(sorted(case["Ef"]))
     internal = {"external_terms": False}
-    spinful = case["kind"] != "block2"
+    spinful = case["kind"] not in ("block2", "near")
+    mult = {"block2_spin": 4}.get(case["kind"], 2)
+    kk = dict(degen_Kramers=True) if (case.get("kram") and case["kind"] != "near") else {}
 
     def calcs():
-        c = {"tE": tabulate.Energy(), "tOmega": tabulate.BerryCurvature(), "tOmega_int": tabulate.BerryCurvature(kwargs_formula=internal),
-             "tVel": tabulate.Velocity(), "tMorb": tabulate.OrbitalMoment(), "tDerOmega": tabulate.DerBerryCurvature(),
-             "ahc": static.AHC(Efermi=Ef, use_factor=False), "ahc_int": static.AHC(Efermi=Ef, kwargs_formula=internal, use_factor=False),
-             "ohmic": static.Ohmic_FermiSea(Efermi=Ef, use_factor=False), "ohmic_surf": static.Ohmic_FermiSurf(Efermi=Ef, use_factor=False),
-             "bd": static.BerryDipole_FermiSea(Efermi=Ef, use_factor=False), "morb": static.Morb(Efermi=Ef, use_factor=False),
-             "cumdos": static.CumDOS(Efermi=Ef, use_factor=False), "gme_orb": static.GME_orb_FermiSea(Efermi=Ef, use_factor=False)}
+        c = {"tE": tabulate.Energy(), "tOmega": tabulate.BerryCurvature(**kk), "tOmega_int": tabulate.BerryCurvature(kwargs_formula=internal, **kk),
+             "tVel": tabulate.Velocity(**kk), "tMorb": tabulate.OrbitalMoment(**kk), "tDerOmega": tabulate.DerBerryCurvature(**kk),
+             "ahc": static.AHC(Efermi=Ef, use_factor=False, **kk), "ahc_int": static.AHC(Efermi=Ef, kwargs_formula=internal, use_factor=False, **kk),
+             "ohmic": static.Ohmic_FermiSea(Efermi=Ef, use_factor=False, **kk), "ohmic_surf": static.Ohmic_FermiSurf(Efermi=Ef, use_factor=False, **kk),
+             "bd": static.BerryDipole_FermiSea(Efermi=Ef, use_factor=False, **kk), "morb": static.Morb(Efermi=Ef, use_factor=False, **kk),
+             "cumdos": static.CumDOS(Efermi=Ef, use_factor=False, **kk), "gme_orb": static.GME_orb_FermiSea(Efermi=Ef, use_factor=False, **kk)}
         # integrated dynamic (frequency dependent) calculators
         om = np.array([0.45, 1.3])
         dkw = dict(Efermi=Ef, omega=om, kBT=0.05)
@@ -181,9 +194,10 @@ def check_gauge(case):
         if spinful:
             c["spin_tetra"] = static.Spin(Efermi=Ef_t, tetra=True, use_factor=False)
         if spinful:
-            c["tSpin"] = tabulate.Spin()
-            c["spin"] = static.Spin(Efermi=Ef, use_factor=False)
-            c["gme_spin"] = static.GME_spin_FermiSea(Efermi=Ef, use_factor=False)
+            c["tSpin"] = tabulate.Spin(**kk)
+            c["spin"] = static.Spin(Efermi=Ef, use_factor=False, **kk)
+            c["gme_spin"] = static.GME_spin_FermiSea(Efermi=Ef, use_factor=False, **kk)
+            c["ahc_zeeman_spin"] = static.AHC_Zeeman_spin(Efermi=Ef, use_factor=False, **kk)
         return c
 
     def evaluate(random_gauge, seed):
@@ -208,8 +222,9 @@ def check_gauge(case):
             rotated = True
         # rotated eigenvectors must still diagonalise H with the same energies (unitary, same subspaces)
         H = model.Hk(k)
-    if np.max(np.abs(base["tE"][0] - np.repeat(np.sort(E), 2))) > 1e-9 * (1 + np.max(np.abs(E))):
-        raise Violation("energies", "doubled system does not have every band twice")
+    Eexp = np.sort(np.concatenate([E, E + case["delta"]])) if case["kind"] == "near" else np.repeat(np.sort(E), mult)
+    if np.max(np.abs(base["tE"][0] - Eexp)) > 1e-9 * (1 + np.max(np.abs(E))):
+        raise Violation("energies", "multiplied system does not have every band of the parent model with its multiplicity")
     # natural unit of each result: 1 for tabulators / static calculators built with use_factor=False, the constant
     # prefactor for dynamic calculators (their results carry it), so that absolute rounding floors are meaningful
     unit = {name: (abs(getattr(c, "constant_factor", 1.0)) if name.startswith("d") else 1.0) for name, c in calcs().items()}
@@ -226,8 +241,11 @@ def check_gauge(case):
     if new:
         raise Violation(f"gauge:{new[0][0]}", new[0][1] + (f" [also {[f[0] for f in found[1:]]}]" if len(found) > 1 else ""))
     # listed findings are excluded from the verdict (counted, reported by the runner); the search continues behind them
-    return ok(rotated, case["kind"], f"nw={model.nw}", "rotated" if rotated else "not-rotated",
-              known=[f"gauge:{f[0]}" for f in found])
+    if case["kind"] == "near" and rotated:
+        raise Violation("gauge:rotates-non-degenerate", f"random_gauge (default parameters) rotated bands that are {case['delta']:.0e} eV "
+                                                        f"apart, above the documented threshold 1e-4")
+    return ok(rotated or case["kind"] == "near", case["kind"], f"nw={model.nw}", "rotated" if rotated else "not-rotated",
+              "degen_Kramers" if kk else None, known=[f"gauge:{f[0]}" for f in found])
 
 
 SUBS = [
